@@ -92,7 +92,7 @@ ENGINES.append({"name": "vx-trap", "path": "harness/src/trapemu.rs, harness/src/
   "kind_free_text": "SIGSEGV/SIGILL trap-and-emulate monitor: decodes the privileged instruction the crate really executed, logs operands, applies it to an emulated register file, resumes"})
 ENGINES.append({"name": "vx-irqsim", "path": "harness/src/irqsim.rs, harness/src/props/c13.rs", "serves_properties": ["C13"],
   "kind_free_text": "simulated interrupt delivery in ring 3: hardware-format stack frame, jump into the installed stub, native iretq back; observing general handler"})
-HOOK_COMMITS = ["fa1ff97", "dc6676e", "2bec2c6"]
+HOOK_COMMITS = ["fa1ff97", "dc6676e", "2bec2c6", "d096323"]
 NOTES = ("Runtime monitoring and sanitizers. ./check <ID> rebuilds the harness crate (harness/, binary vx) against /repo's working tree in "
          "two profiles, runs sharded monitor processes, filters known findings (known_findings.json) and writes evidence/<ID>.json. "
          "Exit 0 held / 1 VIOLATION / 2 INCONCLUSIVE (machinery problem, never reported as violation).")
